@@ -85,7 +85,7 @@ PRESERVING = {
 # engine follows; it must still never report a violation there
 NO_VERDICT_OK = {('RG4c', 'C15'), ('RI4c', 'C15'), ('RI2b', 'C12'), ('RI3a', 'C02'), ('RI3a', 'C06'), ('RI3a', 'C10'), ('RI3a', 'C14'),
                  ('RJ1a', 'C13'), ('RJ1a', 'C14'), ('RJ2a', 'C12'), ('RJ2b', 'C12'), ('RJ4c', 'C15'), ('RJ5a', 'C08'),
-                 ('RK2a', 'C12'), ('RK2b', 'C12'), ('RK3c', 'C02'), ('RK3c', 'C06'), ('RK3c', 'C10'), ('RK4d', 'C15'),
+                 ('RK2a', 'C12'), ('RK2b', 'C12'), ('RK2b', 'C01'), ('RK3c', 'C02'), ('RK3c', 'C06'), ('RK3c', 'C10'), ('RK4d', 'C15'),
                  ('RL1c', 'C19'), ('RL2c', 'C12'), ('RL2d', 'C02'), ('RL2d', 'C12'), ('RL2d', 'C14'), ('RL3c', 'C01'), ('RL3d', 'C02'),
                  ('RL3d', 'C06'), ('RL3d', 'C10'), ('RL3d', 'C11'), ('RL4a', 'C15'), ('RL4d', 'C12'), ('RL4d', 'C15'), ('RL4d', 'C16'),
                  ('RM4a', 'C16'), ('RM4c', 'C15'), ('RM4d', 'C15')}
